@@ -35,7 +35,9 @@ Recorded(raw, i, use, p) ==
                 {[p |-> q, u |-> UseOf(below, its[n]), d |-> Res(raw, its[n]), v |-> ScalarOf(raw, its[n])]}
                 \cup Recorded(raw, its[n], below, q) : n \in 1..Len(its)}
     [] raw[j].k = "MS" ->
-         LET own == RawOwn(raw, j)
+         LET own0 == RawOwn(raw, j)
+             \* a repeated own key (only possible under DuplicateKeyPolicy::LastWins): the last entry is the one whose value is used
+             own == SelectSeq(own0, LAMBDA e : ~\E n \in 1..Len(own0) : own0[n] > e /\ KeyTextOf(raw, own0[n]) = KeyTextOf(raw, e))
              mvs == RawMergeVals(raw, j)
              ownKeys == {KeyTextOf(raw, own[n]) : n \in 1..Len(own)}
              mg == {m \in UNION {MergedFrom(raw, mvs[n], below) : n \in 1..Len(mvs)} : KeyTextOf(raw, m.e) \notin ownKeys}
@@ -64,6 +66,7 @@ BadTag(v) == Len(v) < 1
 IsKey(s, n) == s.k = "key" /\ s.n = n
 InnerAt(p) == \/ Len(p) = 1 /\ (IsKey(p[1], "first") \/ IsKey(p[1], "subItem"))
               \/ Len(p) = 2 /\ IsKey(p[1], "items") /\ p[2].k = "idx"
+              \/ Len(p) = 2 /\ IsKey(p[1], "extras") /\ p[2].k = "key"       \* the map-typed field of the extended family
 Violated(p, v) ==
   \/ Len(p) = 1 /\ IsKey(p[1], "tag") /\ BadTag(v)
   \/ Len(p) >= 2 /\ InnerAt(SubSeq(p, 1, Len(p) - 1))
